@@ -8,6 +8,9 @@ import subprocess
 import vlib
 
 
+VRF = ["-vrf", "-epoch", "6", "-validators", "4"]
+
+
 def run_scenarios(ctx, seeds, blocks, extra=()):
     """Runs `vh cons-run` for every seed (in parallel).  Returns (trace_lines, summaries)."""
     def one(seed):
@@ -56,8 +59,12 @@ def ledger_check(ctx, pid, cfg, selftest_mutator, what):
     seeds = [ctx.seed * 1000 + i for i in range(6 if q else 60)]
     blocks = 120 if q else 300
     lines, sums = run_scenarios(ctx, seeds, blocks)
+    # the same scenario family on the VRF beacon backend (the production one): nodes submit VRF proofs as transactions
+    l2, s2 = run_scenarios(ctx, [x + 300 for x in seeds[:max(2, len(seeds) // 3)]], blocks, extra=VRF)
+    lines += l2
+    sums += s2
     t = totals(sums)
-    ctx.log("scenarios: %d seeds, %d blocks, %d events" % (len(seeds), t["blocks"], t["events"]))
+    ctx.log("scenarios: %d seeds (%d on the VRF beacon), %d blocks, %d events" % (len(sums), len(s2), t["blocks"], t["events"]))
     rej, nv, nev = validate(ctx, lines, "TraceLedger", cfg)
     for seg in rej:
         vlib.report(ctx, "%s: recorded consensus state breaks the rule (%s) at %s" % (pid, seg["why"], seg["failing_event"][:400]),
